@@ -18,6 +18,17 @@ Three case families, all run through /verif/harness_human (command `human`):
   tytext  type texts (generated from the grammar, with and without parentheses, mutated) in target
         position -> the type the parser reads or its error; model: run_tytext
   textcmr generated plain texts against the same program built through the construction API (root CMR)
+  paths  texts in which named / inline witnesses and disconnects are shared 2, 3, .. times below one or
+        several roots, also through shared intermediate definitions (path counts multiply), up to 2^63
+        paths -> Forest::parse -> the reported (name, count) pairs, sorted; model: Human/PathRun.v run_paths
+        (the loop of parse_inner as written, Human/PathCount.v); an independent python count of the paths
+        to every user-named witness / disconnect is the direct test
+  linetok committed programs -> the text of string_serialize, tokenised here by an independent reader (the lexer's token
+        classes; literals as bytes + bit length), against the token list of the model (Human/LineText.v line_tokens:
+        `name := expr operands : A -> B`; the arrows of the lines are read from the text and handed to the model as
+        data); the model also runs its token parser on its own rendering (must give the rendered definitions back)
+  fromok committed programs -> the facts behind theorem C17_from_program observed on the objects (identity
+        hashes closed as CommitData::imr says, names distinct, one path per witness name); model: run_fromok
 Scope decision (property text: "any successfully parsed single-program source text"): a text is in
 scope of the round-trip clause iff its parse succeeds with exactly one root and that root is `main`.
 Texts that parse to several roots (unused definitions, filled holes) or to none are only required to
@@ -35,7 +46,8 @@ from vplib import Case
 
 PROP = "C17"
 LEVEL = "proof"
-IMPORTS = ["Core.Prog", "Human.Namer", "Human.Render", "Human.Resolve", "Human.Run", "Human.TypeText", "Human.TypeRun"]
+IMPORTS = ["Core.Prog", "Human.Namer", "Human.Render", "Human.Resolve", "Human.Run", "Human.TypeText", "Human.TypeRun",
+           "Human.PathCount", "Human.PathSat", "Human.FromProgram", "Human.PathRun", "Human.LineText", "Human.LineRun"]
 CRATE = None  # merged into the main harness crate
 CORPUS = os.path.join(vplib.VERIF, "corpus", "C17")
 
@@ -168,6 +180,8 @@ def read_reparse(v, p):
 def decode_result(kind, r):
     """structured form of a harness result of kind prog / text; None when malformed"""
     if not isinstance(r, list) or not r or not all(isinstance(x, int) for x in r):
+        return None
+    if kind in ("paths", "fromok", "linetok"):
         return None
     try:
         if kind == "prog":
@@ -366,6 +380,14 @@ def roundtrip_check(lines, rp, what, np=0):
 
 
 def prop_check(c, r):
+    if c.kind == "linetok":
+        if r in ("CRASH", "TIMEOUT") or r is None:
+            return ("render-crash", "the process %s on %s %s" % ("aborted" if r == "CRASH" else "did not finish", c.kind, c.line[:200]))
+        if isinstance(r, list) and r[:1] == [9]:
+            return ("render-panic", "from_program / string_serialize panicked on %s" % c.line[:200])
+        return None
+    if c.kind in ("paths", "fromok"):
+        return check_paths(c, r)
     if r == "CRASH" and c.kind in ("text", "tytext") and c.meta.get("type_chain"):
         return ("parse-type-chain-stack-overflow", "Forest::parse aborts the process (stack overflow in ast::Type::reify) on a type "
                 "ascription built by chains of `?` / `+` / `*` (%s, %d bytes of source)" % (c.meta.get("tag"), len(c.meta.get("src", ""))))
@@ -453,6 +475,12 @@ def finding_match(c, r, cls):
 
 
 def nontrivial(c, r):
+    if c.kind == "paths" and isinstance(r, list):
+        return ("paths", c.meta.get("src"))
+    if c.kind == "linetok" and isinstance(r, list) and c.meta.get("lines", 0) >= 3:
+        return ("linetok", c.line)
+    if c.kind == "fromok" and isinstance(r, list) and r[:1] == [0] and len(r) > 2 and r[2] >= 3:
+        return ("fromok", c.line)
     if c.kind in ("typ", "tytext") and isinstance(r, list) and len(r) > 3:
         return (c.kind, tuple(r[:400]))
     d = decode_result(c.kind, r) if c.kind in ("prog", "text") else None
@@ -1075,6 +1103,10 @@ def prog_cases(rng, tier, binary, rep, add):
         add("prog", "%s 1 %s" % (fam, pg.prog_pdl(prog)),
             "run_prog %s %s %s" % (prog_coq(prog, jet_ids), vplib.coq_list(ihr), vplib.coq_list(cmr)),
             {"fam": fam, "nodes": len(prog), "nonprincipal": nonprincipal(prog)})
+        if tier != "quick" or k % 2 == 0:
+          add("fromok", "%s 1 %s" % (fam, pg.prog_pdl(prog)),
+              "run_fromok %s %s %s" % (prog_coq(prog, jet_ids), vplib.coq_list(ihr), vplib.coq_list(cmr)),
+              {"fam": fam, "nodes": len(prog)})
     # search only (too large for the model): a definition line above 65535 characters
     for n in (16, 18):
         add("prog", "c 1 word.%d.%s,unit,comp.0.1" % (n, "01" * 2 ** (n - 1)), None, {"fam": "c", "nodes": 3, "long_line": n >= 18})
@@ -1611,6 +1643,466 @@ def check_expect(c, d):
 
 
 # ------------------------------------------------------------------ run
+# ------------------------------------------------------------------ path counts (kind paths) and from_program (kind fromok)
+NAME_LEN = {0: 1, 1: 3, 2: 2, 3: 2, 4: 2, 5: 2}
+
+
+def split_groups(v):
+    """the `77 <name> <count>` groups of a paths result"""
+    out = []
+    p = 0
+    while p < len(v):
+        if v[p] != 77:
+            raise Bad("group")
+        n = NAME_LEN[v[p + 1]]
+        out.append(tuple(v[p + 1:p + 1 + n + 1]))
+        p += 1 + n + 1
+    return out
+
+
+def canon_paths(r):
+    """error pairs as a sorted multiset (the order of the implementation's list is that of hash maps)"""
+    if not isinstance(r, list) or r[:1] != [1] or len(r) < 2:
+        return r
+    k = r[1]
+    try:
+        gs = sorted(split_groups(r[2 + k:]))
+    except (Bad, IndexError, KeyError):
+        return r
+    out = list(r[:2 + k])
+    for g in gs:
+        out += [77] + list(g)
+    return out
+
+
+def ref_names(e, acc):
+    """names referred to by an expression (into the set acc)"""
+    for x in all_refs(e, []):
+        acc.add(tuple(x.name))
+    return acc
+
+
+def e_node(kind, l=None, r=None):
+    return E("node", kind=kind, pay=[], l=l, r=r)
+
+
+def e_ref(k):
+    return E("ref", name=("user", k))
+
+
+def gen_paths_text(rng, size, roots_extra):
+    """definitions u<k> of type 1 -> 1 built from shared witnesses / disconnects; returns the (name, E) list"""
+    defs = []
+    counter = [0]
+
+    def fresh():
+        counter[0] += 1
+        return counter[0]
+
+    wits = []
+    for _ in range(1 + rng.below(3)):
+        k = fresh()
+        defs.append((("user", k), e_node(12)))
+        wits.append(k)
+    discs = []
+    for _ in range(rng.below(3)):
+        k = fresh()
+        h = ("hole", 100 + k) if rng.chance(1, 2) else ("user", 500 + k)
+        defs.append((("user", k), E("node", kind=11, pay=[], l=e_node(8, e_node(1), e_node(1)), r=E("hole", name=h))))
+        discs.append(k)
+    xs = []
+
+    def some_x():
+        if xs and rng.chance(5, 6):
+            return e_ref(rng.choice(xs))
+        return e_node(1)
+
+    def unit_of(a):
+        return e_node(6, a, e_node(1))
+
+    for _ in range(size):
+        form = rng.below(8)
+        if form == 0:
+            body = unit_of(e_ref(rng.choice(wits)))
+        elif form == 1:
+            body = unit_of(e_node(8, e_ref(rng.choice(wits)), e_ref(rng.choice(wits))))
+        elif form == 2 and discs:
+            body = unit_of(e_ref(rng.choice(discs)))
+        elif form == 3:
+            body = unit_of(e_node(8, e_node(12), e_node(12)))          # inline witnesses: generated names
+        elif form == 4 and xs:
+            a = e_ref(rng.choice(xs))
+            body = unit_of(e_node(8, a, E("ref", name=a.name)))            # the same definition twice: counts double
+        elif form == 5:
+            body = e_node(6, some_x(), some_x())
+        elif form == 6 and discs:
+            body = unit_of(e_node(8, unit_of(e_ref(rng.choice(discs))), some_x()))
+        else:
+            body = unit_of(e_node(8, some_x(), some_x()))
+        k = fresh()
+        defs.append((("user", k), body))
+        xs.append(k)
+    # main: one or two of the later definitions; what stays unreferenced is a further root
+    a = e_ref(xs[-1])
+    b = e_ref(rng.choice(xs)) if rng.chance(1, 2) else e_node(1)
+    main = unit_of(e_node(8, a, b)) if rng.chance(2, 3) else a
+    if not roots_extra:
+        # refer to every definition so that main is the only root
+        used = set()
+        ref_names(main, used)
+        for nm, e in defs:
+            ref_names(e, used)
+        for nm, e in defs:
+            if nm not in used:
+                main = unit_of(e_node(8, unit_of(E("ref", name=nm)) if e.kind in (11, 12) and e.l is None or e.kind == 11 else E("ref", name=nm), main))
+    defs.append((("main",), main))
+    return defs
+
+
+USIZE_MAX = 2 ** 64 - 1
+
+
+def expected_user_counts(defs):
+    """independent count: for every root (a name nothing refers to) the number of paths to every witness /
+    disconnect that is the right-hand side of a definition, by expansion of the references"""
+    table = dict(defs)
+    referred = set()
+    for _nm, e in defs:
+        ref_names(e, referred)
+    memo = {}
+
+    def of_expr(e):
+        acc = {}
+
+        def addto(d, mult=1):
+            for k_, v in d.items():
+                acc[k_] = acc.get(k_, 0) + v * mult
+
+        if e.tag == "ref":
+            addto(of_name(e.name))
+        elif e.tag == "node":
+            if e.l is not None:
+                addto(of_expr(e.l))
+            if e.r is not None and e.kind != 11:
+                addto(of_expr(e.r))
+        return acc
+
+    def of_name(nm):
+        if nm not in memo:
+            e = table[nm]
+            d = of_expr(e)
+            if e.tag == "node" and e.kind in (11, 12):
+                d = dict(d)
+                d[nm] = d.get(nm, 0) + 1
+            memo[nm] = d
+        return memo[nm]
+
+    out = []
+    for nm, _e in defs:
+        if nm not in referred:
+            for k_, v in of_name(nm).items():
+                if v > 1:
+                    out.append((k_, min(v, USIZE_MAX)))      # the count saturates (commit c273481)
+    return sorted(out)
+
+
+def defs_text(rng, defs):
+    order = rng.shuffle(list(range(len(defs))))
+    lines = ["%s := %s" % (text_name(defs[j][0]), e_text(rng, defs[j][1], True)) for j in order]
+    coq = "[" + "; ".join("mk_line %s (Some %s)" % (coq_name(defs[j][0]), e_coq(defs[j][1])) for j in order) + "]"
+    return "\n".join(lines) + "\n", coq
+
+
+def doubling_defs(levels):
+    """w := witness  x0 := comp w unit  x_{k+1} := comp (pair x_k x_k) unit  main := x_levels : 2^levels paths"""
+    defs = [(("user", 1), e_node(12)), (("user", 2), e_node(6, e_ref(1), e_node(1)))]
+    for k in range(levels):
+        defs.append((("user", 3 + k), e_node(6, e_node(8, e_ref(2 + k), e_ref(2 + k)), e_node(1))))
+    defs.append((("main",), e_ref(2 + levels)))
+    return defs
+
+
+def paths_cases(rng, tier, add):
+    n = 0
+    stats = {"with_error": 0, "multi_root_texts": 0, "max_count_expected": 0}
+
+    def emit(defs, r, tag, **kw):
+        src, coq = defs_text(r, defs)
+        exp = expected_user_counts(defs)
+        meta = {"src": src, "tag": tag, "fam": "c", "expected_user": [[list(k_), v] for k_, v in exp],
+                "defined": [name_nums(nm) for nm, _e in defs]}
+        meta.update(kw)
+        add("paths", "c %s" % src.encode().hex(), "run_paths %s" % coq, meta)
+        if exp:
+            stats["with_error"] += 1
+            stats["max_count_expected"] = max(stats["max_count_expected"], max(v for _k, v in exp))
+
+    # fixed: one witness shared 2, 3, 4, 5 times directly; 2 x 2, 2 x 3, 2 x 2 x 2 through shared definitions
+    r0 = rng.fork("fixed")
+    for m in (1, 2, 3, 4, 5):
+        body = e_ref(1)
+        for _ in range(m - 1):
+            body = e_node(8, e_ref(1), body)
+        emit([(("user", 1), e_node(12)), (("main",), e_node(6, body, e_node(1)))], r0, "direct%d" % m)
+    for levels in (1, 2, 3, 5, 10, 31, 32, 62, 63):
+        emit(doubling_defs(levels), r0, "double%d" % levels)
+    # regression of F-C17m (fixed, c273481): 2^64 and 2^65 paths are reported with the count usize::MAX
+    emit(doubling_defs(64), r0, "double64", overflow=True)
+    emit(doubling_defs(65), r0, "double65", overflow=True)
+    # the same witness below two roots; a disconnect shared; names that look generated
+    emit([(("user", 1), e_node(12)),
+          (("user", 2), e_node(6, e_node(8, e_ref(1), e_ref(1)), e_node(1))),
+          (("user", 3), e_node(6, e_node(8, e_ref(1), e_node(8, e_ref(1), e_ref(1))), e_node(1))),
+          (("main",), e_node(6, e_ref(1), e_node(1)))], r0, "three_roots")
+    emit([(("gen", 12, 1), e_node(12)),
+          (("gen", 12, 2), e_node(12)),
+          (("main",), e_node(6, e_node(8, E("ref", name=("gen", 12, 1)), e_node(8, E("ref", name=("gen", 12, 1)), e_node(8, e_node(12), E("ref", name=("gen", 12, 2))))), e_node(1)))],
+         r0, "generated_names")
+    count = {"quick": 60, "thorough": 1500}.get(tier, 60)
+    for k in range(count):
+        r = rng.fork("p%d" % k)
+        defs = gen_paths_text(r, 2 + r.below(7), roots_extra=r.chance(1, 2))
+        referred = set()
+        for _nm, e in defs:
+            ref_names(e, referred)
+        if sum(1 for nm, _e in defs if nm not in referred) > 1:
+            stats["multi_root_texts"] += 1
+        emit(defs, r, "random")
+        n += 1
+    return stats
+
+
+def check_paths(c, r):
+    if r in ("CRASH", "TIMEOUT") or r is None:
+        return ("parse-crash" if r == "CRASH" else "parse-timeout",
+                "the process %s on %s %s" % ("aborted" if r == "CRASH" else "did not finish", c.kind, c.line[:200]))
+    if not isinstance(r, list) or not r:
+        return ("harness-result", "unreadable harness result %s" % (r,))
+    if c.kind == "fromok":
+        if r[0] == 1:
+            return None
+        if r[0] == 9:
+            return ("render-panic", "from_program panicked on %s" % c.line[:200])
+        if len(r) != 5:
+            return ("harness-result", "unreadable harness result %s" % r[:20])
+        if r[1] != 1:
+            return ("ihr-not-closed", "a CommitNode with an identity hash is a witness / disconnect or has an operand without one: %s" % c.line[:200])
+        if r[3] != 1:
+            return ("from-program-names", "Forest::from_program gives two node objects the same name: %s" % c.line[:200])
+        if r[4] != 1:
+            return ("from-program-paths", "Forest::from_program: a witness / disconnect name is reached by two paths: %s" % c.line[:200])
+        return None
+    src = c.meta.get("src", "")
+    if r[0] == 9:
+        if c.meta.get("overflow"):
+            return ("path-count-overflow", "Forest::parse panics in the path count of parse_inner (F-C17m, fixed by c273481, is back) "
+                    "on a text of %d lines in which a witness is reached by 2^64 or more paths" % len(src.splitlines()))
+        return ("parse-panic", "Forest::parse panicked on the source text %r" % src[:200])
+    # the statement executed directly: an error is reported for exactly the user-named witnesses / disconnects that
+    # the independent count finds on more than one path, with that count
+    exp = sorted((tuple(name_nums(tuple(k_))), v) for k_, v in c.meta.get("expected_user", []))
+    try:
+        got = []
+        if r[0] == 1:
+            k = r[1]
+            codes = r[2:2 + k]
+            if set(codes) - {18}:
+                return None           # other errors (not generated here): nothing to say
+            defined = set(tuple(x) for x in c.meta.get("defined", []))
+            got = sorted((g[:-1], g[-1]) for g in split_groups(r[2 + k:]) if g[:-1] in defined)
+        elif r[0] != 0:
+            return ("harness-result", "unreadable harness result %s" % r[:20])
+    except (Bad, IndexError, KeyError):
+        return ("harness-result", "unreadable harness result %s" % r[:40])
+    if got != exp:
+        return ("path-count", "Forest::parse reports the repeated witness / disconnect names %s, an independent count of the "
+                "paths gives %s, source %r" % (got, exp, src[:300]))
+    return None
+
+
+# ------------------------------------------------------------------ definition lines as tokens (kind linetok)
+LEX = re.compile(r"""(?P<ws>[ \t\r\n]+)|(?P<comment>--[^\n]*)|(?P<assign>:=)|(?P<arrow>->)|(?P<hashbrace>\#\{)|
+(?P<cmr>\#[a-fA-F0-9]{64})|(?P<bin>0b[01]+)|(?P<hex>0x[0-9a-f]+)|(?P<pow>2\^[1-9][0-9]*)|
+(?P<sym>[a-zA-Z_\-.'][0-9a-zA-Z_\-.']*)|(?P<one>1)|(?P<two>2)|(?P<punct>[()+*:}?])""", re.X)
+KEYWORDS = {"iden": 0, "unit": 1, "injl": 2, "injr": 3, "take": 4, "drop": 5, "comp": 6, "case": 7, "pair": 8, "assertl": 9,
+            "assertr": 10, "disconnect": 11, "witness": 12, "fail": 13, "const": 15}
+PUNCT = {"(": [30, 5], ")": [30, 6], "+": [30, 7], "*": [30, 8], "?": [30, 4], ":": [24], "}": [23]}
+
+
+def name_of_text(s_):
+    if s_ == "main":
+        return ("main",)
+    for k, pre in enumerate(PREFIXES):
+        if s_.startswith(pre):
+            rest = s_[len(pre):]
+            if rest.isdigit() and (rest == "0" or rest[0] != "0") and rest.isascii():
+                return ("gen", k, int(rest))
+    for pre, tag in (("hole_", "hole"), ("u", "user")):
+        if s_.startswith(pre):
+            rest = s_[len(pre):]
+            if rest.isdigit() and (rest == "0" or rest[0] != "0") and rest.isascii():
+                return (tag, int(rest))
+    return ("other", 0)
+
+
+def lex_text(text, fam, jet_ids):
+    """independent reader of the lexer's token classes -> list of number groups (None: a lexeme the lexer refuses)"""
+    out = []
+    pos = 0
+    while pos < len(text):
+        m = LEX.match(text, pos)
+        if not m:
+            return None
+        pos = m.end()
+        kind = m.lastgroup
+        t = m.group(kind)
+        if kind in ("ws", "comment"):
+            continue
+        if kind == "assign":
+            out.append([20])
+        elif kind == "arrow":
+            out.append([21])
+        elif kind == "hashbrace":
+            out.append([22])
+        elif kind == "cmr":
+            out.append([28] + [int(t[1 + 2 * j:3 + 2 * j], 16) for j in range(32)])
+        elif kind == "bin":
+            bits = [int(ch) for ch in t[2:]]
+            data = pack(bits)
+            out.append([27, len(bits), len(data)] + data)
+        elif kind == "hex":
+            d = t[2:]
+            data = [int(d[2 * j:2 * j + 2], 16) for j in range(len(d) // 2)]
+            if len(d) % 2:
+                data.append(int(d[-1], 16) << 4)
+            out.append([27, 4 * len(d), len(data)] + data)
+        elif kind == "pow":
+            out.append([30, 3, int(t[2:])])
+        elif kind == "one":
+            out.append([30, 1])
+        elif kind == "two":
+            out.append([30, 2])
+        elif kind == "punct":
+            out.append(list(PUNCT[t]))
+        elif kind == "sym":
+            if t in KEYWORDS:
+                out.append([25, KEYWORDS[t]])
+            elif t == "_":
+                out.append([30, 11])
+            elif re.fullmatch(r"jet_[a-z0-9_]+", t):
+                out.append([26, jet_ids.get((fam, t[4:]), 99999)])
+            else:
+                out.append([29] + name_nums(name_of_text(t)))
+    return out
+
+
+def type_of_groups(gs):
+    """printed type (token groups `30 ..`) -> proggen-style type with words ("w", n); None when not of the printed form"""
+    pos = [0]
+
+    def peek():
+        return gs[pos[0]] if pos[0] < len(gs) else None
+
+    def atom():
+        g = peek()
+        if g is None:
+            raise Bad("type")
+        pos[0] += 1
+        if g == [30, 1]:
+            return TU
+        if g == [30, 2]:
+            return tw(0)
+        if g[:2] == [30, 3]:
+            y = g[2]
+            if y & (y - 1) or y < 2:
+                raise Bad("pow")
+            return tw(y.bit_length() - 1)
+        if g == [30, 5]:
+            t = expr()
+            if peek() != [30, 6]:
+                raise Bad("paren")
+            pos[0] += 1
+            return t
+        raise Bad("atom")
+
+    def postfix():
+        t = atom()
+        while peek() == [30, 4]:
+            pos[0] += 1
+            t = ("s", TU, t)
+        return t
+
+    def expr():
+        t = postfix()
+        while peek() in ([30, 7], [30, 8]):
+            op = peek()
+            pos[0] += 1
+            r = postfix()
+            t = ("s" if op == [30, 7] else "p", t, r)
+        return t
+
+    t = expr()
+    if pos[0] != len(gs):
+        raise Bad("rest")
+    return t
+
+
+def line_arrows(text, fam, jet_ids):
+    """the arrows of the definition lines of a rendered text, in text order"""
+    out = []
+    for ln in text.split("\n"):
+        gs = lex_text(ln, fam, jet_ids)
+        if not gs:
+            continue
+        if [24] not in gs or [21] not in gs:
+            raise Bad("line without arrow")
+        c = gs.index([24])
+        a = gs.index([21], c)
+        out.append((type_of_groups(gs[c + 1:a]), type_of_groups(gs[a + 1:])))
+    return out
+
+
+def linetok_cases(rng, tier, binary, rep, good, jet_ids, add):
+    sel = [g for k, g in enumerate(good) if tier != "quick" or k % 3 == 0]
+    lines = ["r%d rtext %s 1 %s" % (k, fam, pg.prog_pdl(prog)) for k, (fam, prog, _i, _c, _a) in enumerate(sel)]
+    res = vplib.run_harness(binary, "human", lines, workdir=rep.workdir())
+    n = 0
+    for k, (fam, prog, ihr, cmr, _a) in enumerate(sel):
+        r = res.get("r%d" % k)
+        if not isinstance(r, list) or r[:1] != [0]:
+            continue
+        try:
+            text = bytes(r[1:]).decode()
+            arrows = line_arrows(text, fam, jet_ids)
+        except (Bad, ValueError, UnicodeDecodeError):
+            continue
+        if sum(len(t_coq(a)) + len(t_coq(b)) for a, b in arrows) > 200000:
+            continue
+        coq_arrows = "[" + "; ".join("(%s, %s)" % (t_coq(a), t_coq(b)) for a, b in arrows) + "]"
+        add("linetok", "%s 1 %s" % (fam, pg.prog_pdl(prog)),
+            "run_linetok %s %s %s %s" % (prog_coq(prog, jet_ids), vplib.coq_list(ihr), vplib.coq_list(cmr), coq_arrows),
+            {"fam": fam, "nodes": len(prog), "lines": len(arrows)})
+        n += 1
+    return n
+
+
+def canon_linetok(c, r, jet_ids):
+    """the implementation's text as the token numbers of the model; the two flags of the model (every line of the
+    expected form, the token parser reads its own rendering back) are expected to be 1"""
+    if not isinstance(r, list) or r[:1] != [0]:
+        return r
+    try:
+        gs = lex_text(bytes(r[1:]).decode(), c.meta.get("fam", "c"), jet_ids)
+    except (ValueError, UnicodeDecodeError):
+        return r
+    if gs is None:
+        return [0, 1, 1, 8, -1]
+    out = [0, 1, 1, 8]
+    for g in gs:
+        out += g
+    return out
+
+
 def run(rep, tier, rng):
     proof_ok = vplib.proof_stage(rep, "Props/C17.v", extra_targets=["Human/Run.vo"], translators=())
     rep.coverage["trusted_base"] = vplib.GENERIC_TRUSTED + [
@@ -1623,11 +2115,20 @@ def run(rep, tier, rng):
         "identity-hash and commitment-root classes of the nodes of a committed program are taken from the implementation (input of the model)",
         "the recursive post-order walks of the model stand for PostOrderIter::next (their equality is C18)",
         "harness /verif/harness_human: reduces the rendered text to numbers with a minimal line reader",
+        "model Human/PathCount.v written by hand from the last loop of parse_inner (parse/mod.rs): HashMaps as association lists "
+        "(all theorems are about the map as a function); Human/PathSat.v: the same loop with saturating usize additions (the code since "
+        "c273481; PathCount.wd_check_old is the code before it, kept for the refutation lemma of F-C17m); Human/FromProgram.v: the "
+        "hypothesis from_ok on the identity-hash classes mirrors CommitData::imr and is evaluated on the implementation's objects "
+        "for every generated program (kind fromok)",
+        "model Human/LineText.v written by hand from string_serialize pass 1 and parse/ast.rs at the level of lexer token classes "
+        "(literal tokens stand for the bytes and bit length parse_literal computes; logos itself, comments and layout are not "
+        "modelled: kind linetok tokenises the implementation's text with an independent python reader)",
     ]
     # the refuted renderer is the one before the fix F-C17 (fixed, 5461b0f); the model follows the code after
     # the fixes F-C17a..g; F-C17h (open) is about type ascriptions, below the level of the model
     rep.coverage["refuted_lemmas"] = ["C17_render_old_refuted", "C17_print_i32_refuted_w31", "C17_parse_nobudget_depth_refuted",
-                                      "C17_parse_perloop_depth_refuted", "C17_parse_print_ty_refuted_deep"]
+                                      "C17_parse_perloop_depth_refuted", "C17_parse_print_ty_refuted_deep",
+                                      "C17_from_program_statement_refuted_weak_hyp", "C17_path_count_overflow_old_refuted"]
     binary, out = vplib.harness_build("debug", crate=CRATE)
     if binary is None:
         raise vplib.Infra("harness build failed:\n" + out[-3000:])
@@ -1644,6 +2145,9 @@ def run(rep, tier, rng):
     string_cases(rng.fork("str"), tier, add)
     ntyp = type_cases(rng.fork("typ"), tier, add)
     tytext_cases(rng.fork("tytext"), tier, add)
+    pstats = paths_cases(rng.fork("paths"), tier, add)
+    rep.coverage["generator"]["paths"] = pstats
+    rep.coverage["generator"]["linetok_cases"] = linetok_cases(rng.fork("linetok"), tier, binary, rep, good, jet_ids, add)
     rep.coverage["generator"].update({"corpus_cases": ncorpus, "text_variants": tstats, "type_cases": ntyp})
 
     impl, model = vplib.eval_cases(rep, binary, "human", cases, IMPORTS, tag="c17", batch=60,
@@ -1655,17 +2159,45 @@ def run(rep, tier, rng):
         r = impl.get(c.cid)
         m = model.get(c.cid)
         if m is not None:
-            model_c[c.cid] = m if c.kind in ("typ", "tytext") else canon_model(c, m)
+            model_c[c.cid] = m if c.kind == "linetok" else canon_paths(m) if c.kind in ("paths", "fromok") else (m if c.kind in ("typ", "tytext") else canon_model(c, m))
         impl_c[c.cid] = r
     impl_cmp = {}
     for c in cases:
         r = impl.get(c.cid)
-        if c.kind in ("typ", "tytext", "textcmr"):
+        if c.kind == "linetok":
+            impl_cmp[c.cid] = canon_linetok(c, r, jet_ids)
+        elif c.kind in ("paths", "fromok"):
+            impl_cmp[c.cid] = canon_paths(r)
+        elif c.kind in ("typ", "tytext", "textcmr"):
             impl_cmp[c.cid] = r
         elif c.expr is not None and c.cid in model_c and isinstance(r, list):
             impl_cmp[c.cid] = canon_impl(c, r, model_c[c.cid])
         else:
             impl_cmp[c.cid] = r
+
+    # Error code 18 (WitnessDisconnectRepeated) next to a type error: the path count of parse_inner runs over the roots
+    # whose conversion and type finalisation succeeded (`roots.insert` under `Ok(root)`); a type error (code 15, below the
+    # level of the definition-level model, which takes finalisation to succeed) keeps a root out of `roots`, so whether
+    # its repeated witnesses are reported is not predicted by the model: code 18 is then left out of the comparison on
+    # both sides (corpus case text_repeated_name_type_error_paths.case)
+    def without_18(v):
+        if isinstance(v, list) and v[:1] == [1] and len(v) >= 2 and len(v) == 2 + v[1]:
+            codes = [x for x in v[2:] if x != 18]
+            return [1, len(codes)] + codes
+        return v
+
+    ntype18 = 0
+    for c in cases:
+        if c.kind != "text" or c.cid not in model_c:
+            continue
+        d = decode_result("text", impl.get(c.cid))
+        if d and d["stage"] == "error" and 15 in d["codes"] and set(d["codes"]) != {15}:
+            if 18 in (model_c[c.cid][2:] if isinstance(model_c[c.cid], list) and model_c[c.cid][:1] == [1] else []) \
+                    or 18 in d["codes"]:
+                ntype18 += 1
+            model_c[c.cid] = without_18(model_c[c.cid])
+            impl_cmp[c.cid] = without_18(impl_cmp[c.cid])
+    rep.coverage["generator"]["path_errors_not_comparable_next_to_type_errors"] = ntype18
 
     # the property is tested on the raw results, the correspondence on the canonical ones
     def pc(c, _r):
